@@ -6,6 +6,7 @@ CONSTANTS
   SetCountBroadcasts = TRUE
   HWM = 1000000000
   Slack = 1500
+  RestoreSlack = 500
 CONSTRAINT HighWater
 POSTCONDITION TraceAccepted
 CHECK_DEADLOCK FALSE
